@@ -74,3 +74,10 @@ Theorem C02_contract_delegates_for_signer_minted_refuted_K9 :
   b_supply (model_obs w_k9_contract_delegates_for_origin) = 154.
 Proof. exact k9_refuted. Qed.
 Print Assumptions C02_contract_delegates_for_signer_minted_refuted_K9.
+
+Theorem C02_contract_transfers_for_signer_minted_refuted_K15 :
+  model_obs w_k15_contract_transfers_for_origin = impl_obs w_k15_contract_transfers_for_origin /\
+  b_ok (model_obs w_k15_contract_transfers_for_origin) = true /\
+  b_supply (model_obs w_k15_contract_transfers_for_origin) = 154.
+Proof. exact k15_refuted. Qed.
+Print Assumptions C02_contract_transfers_for_signer_minted_refuted_K15.
